@@ -40,6 +40,9 @@ func checkC10(ctx *Ctx, r *Report) {
 	c10PointerHintFromFieldType(ctx, r)
 	c10ThirdHunt(ctx, r)
 	c10CueEmptyCollectionDefault(ctx, r)
+	// defaults of lists and maps are read by the JSON Schema / OpenAPI front-ends; nested empty collections are values
+	c12CollectionDefaultsRead(ctx, r)
+	c12CueNestedEmptyCollections(ctx, r)
 }
 
 func c10DefaultCarried(ctx *Ctx, r *Report) map[*types.Func]bool {
@@ -679,6 +682,7 @@ func c10CueAccessors(ctx *Ctx, r *Report) {
 		r.Undecided("anchor lost: simplecue.cueConcreteToScalar")
 		return
 	}
+	fd = followDelegation(ctx, info, fd)
 	want := map[string][]string{"IntKind": {"Int64", "Uint64", "Int"}, "FloatKind": {"Float64"}, "NumberKind": {"Float64", "Int64"}, "StringKind": {"String"}, "BoolKind": {"Bool"}}
 	n := 0
 	ast.Inspect(fd.Body, func(m ast.Node) bool {
@@ -1801,6 +1805,9 @@ func c10CueEmptyCollectionDefault(ctx *Ctx, r *Report) {
 		r.Undecided("anchor lost: simplecue.cueConcreteToScalar")
 		return
 	}
+	if sp := ctx.Pkg("internal/simplecue"); sp != nil {
+		fd = followDelegation(ctx, sp.TypesInfo, fd)
+	}
 	n := 0
 	ast.Inspect(fd.Body, func(m ast.Node) bool {
 		cc, ok := m.(*ast.CaseClause)
@@ -1837,4 +1844,32 @@ func c10CueEmptyCollectionDefault(ctx *Ctx, r *Report) {
 	})
 	r.Count("collection kinds turned into Go values by the CUE front-end", n)
 	r.Floor("collection kinds turned into Go values by the CUE front-end", 2)
+}
+
+// followDelegation: a function whose body is `return g(…)`, g a function of the same package, only delegates; the rules
+// anchored on it look at g.
+func followDelegation(ctx *Ctx, info *types.Info, fd *ast.FuncDecl) *ast.FuncDecl {
+	for i := 0; i < 4; i++ {
+		if fd.Body == nil || len(fd.Body.List) != 1 {
+			return fd
+		}
+		rs, ok := fd.Body.List[0].(*ast.ReturnStmt)
+		if !ok || len(rs.Results) != 1 {
+			return fd
+		}
+		c, ok := ast.Unparen(rs.Results[0]).(*ast.CallExpr)
+		if !ok {
+			return fd
+		}
+		f := callee(info, c)
+		if f == nil {
+			return fd
+		}
+		next, _ := ctx.DeclOf(f)
+		if next == nil || next.Body == nil || next == fd {
+			return fd
+		}
+		fd = next
+	}
+	return fd
 }
